@@ -2,7 +2,10 @@
 constraint text are evaluated on enumerated texts x points; the oracle evaluates both sides of every line of the TEXT
 with python (variables bound by name, so index replacement is not trusted) and computes the documented per-line
 penalty terms (DESIGN.md Appendix A.2) itself.  Cross clause: penalty(constraint(x)) for the constraint generated
-from the same text via simplify / generate_solvers / generate_constraint."""
+from the same text via simplify / generate_solvers / generate_constraint.  Further families: `sequence` (several
+compilations with different locals, every compiled function evaluated after the LAST compilation), locals whose names
+coincide with names star-imported from math / numpy / builtins, and `join` (generate_penalty with join=and_/or_ and
+None / single / per-function / nested / flat ptype)."""
 import io
 import math
 import random
@@ -23,6 +26,11 @@ PTYPES = ['default', 'quadratic', 'linear', 'uniform']
 KS = [None, 1, 2.5, 1e6]
 COEFS = [1, -1, 2, -2, 0.5, -0.25, 3, 0.1, -0.3, 7.5, 4, -1.5]
 EPS = 1e-9
+CN = ['K0', 'e', 'pi', 'tau', 'inf', 'euler_gamma', 'nan', 'size', 'len', 'id']      # names of a constant given in locals
+FN = ['g', 'hypot', 'gamma', 'power', 'pow', 'fmod']                                # names of a function given in locals
+KV = [2.5, -0.75, 3.0, 0.25, 8.0, -1.5]
+SEQ_TOLS = [None, {'tol': 1e-6, 'rel': 0.0}, {'tol': 1e-12, 'rel': 1e-3}, {'tol': 0.5, 'rel': 0.0}, {'tol': 1e-3, 'rel': 1e-6}]
+FLAT = '#flat-ptype-nested-conditions'
 
 
 def names_of(scheme, nv):
@@ -40,7 +48,7 @@ def line_text(ln, names):
     lhs = _side(ln['L'], ln['Lc'], names)
     if ln.get('extra'):
         lhs += ' + ' + ln['extra'] % tuple(names[j] for j in ln['ev'])
-    return '%s %s %s' % (lhs, ln['cmp'], _side(ln['R'], ln['Rc'], names))
+    return '%s %s %s%s' % (lhs, ln['cmp'], _side(ln['R'], ln['Rc'], names), ' + ' + ln['rname'] if ln.get('rname') else '')
 
 
 def text_of(spec):
@@ -48,9 +56,15 @@ def text_of(spec):
     return '\n'.join(line_text(ln, names) for ln in spec['lines'])
 
 
-def gen_program(cmp, scheme, nlines, extra, seed, cross=False):
+def gen_program(cmp, scheme, nlines, extra, seed, cross=False, direct=False, family=None):
+    """one constraint text.  cross: lines over disjoint variable groups; direct: every line already isolated
+    (x_j cmp expression, usable by generate_solvers without simplify), possibly with a named constant on the right"""
     rng = random.Random('%s|%s|%d|%s|%d|%s' % (cmp, scheme, nlines, extra, seed, cross))
     nv = rng.choice([12, 14, 16]) if (cross or rng.random() < .6) else rng.choice([3, 5])
+    # names given through locals: any name no variable name is a substring of (textual replacement is documented),
+    # in particular names that math / numpy / builtins also export
+    rn = random.Random('names|%s|%s|%d|%s|%d|%s|%s' % (cmp, scheme, nlines, extra, seed, cross, direct))
+    cname, fname = (rn.choice([n for n in L if not any(v in n for v in names_of(scheme, 16))]) for L in (CN, FN))
     pool = list(range(nv))
     hot = [j for j in (1, 10, 11, 12, 0, nv - 1) if j < nv]           # one- and two-digit indices in one text
     lines = []
@@ -58,7 +72,7 @@ def gen_program(cmp, scheme, nlines, extra, seed, cross=False):
     for k in range(nlines):
         src = groups[k] if cross else (hot if rng.random() < .7 else pool)
         vs = rng.sample(src, min(len(src), rng.randint(2, 4)))
-        isolated = cross and rng.random() < .5
+        isolated = direct or (cross and rng.random() < .5)
         nl = 1 if isolated else rng.randint(1, max(1, len(vs) - 1))
         ln = {'cmp': cmp if k == 0 else rng.choice(CMPS), 'isolated': isolated,
               'L': [[1 if (isolated or i == 0) else rng.choice(COEFS), j] for i, j in enumerate(vs[:nl])],
@@ -66,17 +80,41 @@ def gen_program(cmp, scheme, nlines, extra, seed, cross=False):
               'R': [[rng.choice(COEFS), j] for j in vs[nl:nl + (1 if isolated else 2)] if isolated or rng.random() < .6],
               'Rc': rng.choice(COEFS + [0, 0, 100.0, -3e5]) if not isolated or rng.random() < .5 else None}
         if extra != 'none' and k == 0 and not cross:
-            ln['extra'] = {'product': '%s*%s', 'abs': 'abs(%s - %s)', 'gcall': 'g(%s, %s)', 'const': 'K0*%s + 0*%s'}[
+            ln['extra'] = {'product': '%s*%s', 'abs': 'abs(%s - %s)', 'gcall': fname + '(%s, %s)', 'const': cname + '*%s + 0*%s'}[
                 'product' if (extra == 'abs' and scheme == 'alist') else extra]
             ln['ev'] = [rng.choice(src), rng.choice(src)]
+        if direct and rn.random() < .7:
+            ln['rname'] = cname
         lines.append(ln)
-    return {'family': 'cross' if cross else 'conditions', 'scheme': scheme, 'nv': nv, 'lines': lines, 'seed': seed,
+    fam = family or ('cross' if cross else 'conditions')
+    return {'family': fam, 'scheme': scheme, 'nv': nv, 'lines': lines, 'seed': seed,
             'nvars_arg': rng.random() < .6 or scheme in ('xlist', 'alist') or cross, 'g': rng.choice(sorted(GF)),
-            'tols': rng.choice(TOLS), 'tag': '%s|%s|%d|%s' % (cmp, scheme, nlines, extra)}
+            'tols': rng.choice(TOLS), 'tag': '%s%s|%s|%d|%s' % (family + '|' if family else '', cmp, scheme, nlines, extra),
+            'cname': cname, 'fname': fname, 'K0': rn.choice(KV), 'mode': 'direct' if direct else ('cross' if cross else 'conditions')}
+
+
+def gen_sequence(cmp, scheme, extra, direct, seed):
+    """three compilations using the same names in `locals` with different values (constant, function, tol/rel); the
+    first two of the same text, the third of another one; optionally through ONE dict object the caller updates"""
+    rn = random.Random('seq|%s|%s|%s|%s|%d' % (cmp, scheme, extra, direct, seed))
+    nl = rn.choice([1, 2, 3])
+    base = gen_program(cmp, scheme, nl, extra, seed, cross=direct, direct=direct, family='sequence')
+    kv, tl, steps = rn.sample(KV, 3), rn.sample(SEQ_TOLS, 3), []
+    for i in range(3):
+        st = base if i < 2 else gen_program(cmp, scheme, nl, extra, seed + 1, cross=direct, direct=direct, family='sequence')
+        st = dict(st, cname=base['cname'], fname=base['fname'], K0=kv[i], g=sorted(GF)[(i + seed) % 2], tols=tl[i], step=i)
+        st['lines'] = [dict(ln, **({'rname': base['cname']} if ln.get('rname') else {})) for ln in st['lines']]
+        if i == 2:          # the other text uses the same names
+            for ln in st['lines']:
+                if ln.get('extra'):
+                    ln['extra'] = base['lines'][0]['extra']
+        steps.append(st)
+    return {'family': 'sequence', 'steps': steps, 'seed': seed, 'shared_dict': rn.random() < .5,
+            'tag': 'sequence|%s|%s|%s|%s' % (cmp, scheme, extra, direct)}
 
 
 def _locals(spec):
-    d = {'g': GF[spec['g']], 'K0': 2.5}
+    d = {spec.get('fname', 'g'): GF[spec['g']], spec.get('cname', 'K0'): spec.get('K0', 2.5)}
     d.update(spec['tols'] or {})
     return d
 
@@ -90,7 +128,7 @@ def oracle(spec, v):
     """per line: (kind, value, documented-satisfied, truly-holds, scale) from python evaluation of the text at v"""
     names = names_of(spec['scheme'], spec['nv'])
     env = dict(zip(names, v))
-    env.update(abs=abs, g=GF[spec['g']], K0=2.5)
+    env.update({'abs': abs, spec.get('fname', 'g'): GF[spec['g']], spec.get('cname', 'K0'): spec.get('K0', 2.5)})
     t = spec['tols'] or {}
     tol, rel = t.get('tol', 1e-15), t.get('rel', 1e-15)
     out = []
@@ -98,7 +136,8 @@ def oracle(spec, v):
         lhs, _, rhs = line_text(ln, names).partition(' %s ' % ln['cmp'])
         L, R = eval(lhs, {'__builtins__': {}}, env), eval(rhs, {'__builtins__': {}}, env)
         tolR, cmp = tol + abs(R) * rel, ln['cmp']
-        scale = sum(abs(c * v[j]) for c, j in ln['L'] + ln['R']) + abs(ln['Lc'] or 0) + abs(ln['Rc'] or 0) + 1e-290
+        scale = sum(abs(c * v[j]) for c, j in ln['L'] + ln['R']) + abs(ln['Lc'] or 0) + abs(ln['Rc'] or 0) + 1e-290 + (
+            abs(spec.get('K0', 2.5)) if ln.get('rname') else 0)
         if cmp in ('=', '=='):
             val, kind = L - (R), 'eq'
         elif cmp == '!=':
@@ -129,14 +168,47 @@ def term(ptype, kind, k, c):
     return (float(k) if c else 0.0) if kind == 'eq' else (float(k) if c > 0 else 0.0)
 
 
-def build_penalty(ineqf, eqf, ptype, k):
-    import mystic.symbolic as ms
+def _ptype(fam, kind):
     import mystic.penalty as mp
-    kw = {} if k is None else {'k': k}
-    if ptype == 'default':
-        return ms.generate_penalty((ineqf, eqf), **kw)
-    pi, pe = getattr(mp, ptype + '_inequality'), getattr(mp, ptype + '_equality')
-    return ms.generate_penalty((ineqf, eqf), ptype=([pi] * len(ineqf), [pe] * len(eqf)), **kw)
+    return getattr(mp, ('quadratic' if fam == 'default' else fam) + ('_inequality' if kind == 'ineq' else '_equality'))
+
+
+def build_penalties(spec, ineqf, eqf, kinds, res, key):
+    """[(label, k, penalty, groups, combination, key tag)]; groups = [[(line, ptype family, ptype kind)]]: the
+    documented value is the sum (join None / and_) or the minimum (or_) over groups of the sum of the group's terms"""
+    import mystic.symbolic as ms
+    import mystic.coupler as mc
+    gi, ge = ([i for i, k in enumerate(kinds) if k == w] for w in ('ineq', 'eq'))
+    order, nested, out = gi + ge, (ineqf, eqf), []
+    for pt in PTYPES:                                     # sequential application, matched types (nested lists)
+        for k in (KS if pt != 'default' else KS[:2]):
+            ptype = None if pt == 'default' else ([_ptype(pt, 'ineq')] * len(gi), [_ptype(pt, 'eq')] * len(ge))
+            out.append(('ptype=' + pt, k, (nested, ptype, None), [[(i, pt, kinds[i]) for i in order]], 'seq', ''))
+    if spec['family'] == 'join':
+        rng = random.Random('join|%d|%s' % (spec['seed'], spec['tag']))
+        fam = {i: rng.choice(PTYPES[1:]) for i in order}             # a penalty type per line, heterogeneous
+        sf, sk = rng.choice(PTYPES[1:]), kinds[order[0]]               # one type for every line
+        own = lambda g: [(i, fam[i], kinds[i]) for i in g]
+        forms = [('none', nested, None, [[(i, 'default', kinds[i]) for i in g] for g in (gi, ge)]),
+                 ('single', nested, _ptype(sf, sk), [[(i, sf, sk) for i in g] for g in (gi, ge)]),
+                 ('nested', nested, tuple([_ptype(fam[i], kinds[i]) for i in g] for g in (gi, ge)), [own(gi), own(ge)]),
+                 ('per-function', list(ineqf) + list(eqf), [_ptype(fam[i], kinds[i]) for i in order], [own([i]) for i in order]),
+                 ('flat', nested, [_ptype(fam[i], kinds[i]) for i in order], [own(gi), own(ge)])]
+        for jn in (None, 'and_', 'or_'):
+            for form, conds, ptype, groups in forms:
+                if jn == 'or_' and not all(groups):       # the minimum over an empty group is 0: nothing to demand
+                    continue
+                for k in (None, 2.5):
+                    lab = 'join=%s ptype=%s %r' % (jn, form, [[t[1:] for t in g] for g in groups])
+                    out.append((lab, k, (conds, ptype, jn and getattr(mc, jn)), [g for g in groups if g], jn or 'seq',
+                                FLAT if (jn and form == 'flat') else ''))
+    pens = []
+    for lab, k, (conds, ptype, jn), groups, comb, tag in out:
+        try:
+            pens.append((lab, k, ms.generate_penalty(conds, ptype=ptype, join=jn, **({} if k is None else {'k': k})), groups, comb, tag))
+        except Exception as e:
+            res.violation(key + 'penalty-builds' + tag, '%r %s k=%r: %s: %s' % (text_of(spec), lab, k, type(e).__name__, e), jsonable(spec))
+    return pens
 
 
 def points(spec, n, rng):
@@ -166,15 +238,17 @@ def points(spec, n, rng):
         yield kind, x
 
 
-def check_program(spec, res, stats, npts):
+def compile_program(spec, res, stats, loc=None):
+    """conditions, penalties and (cross / direct) the constraint of one text; None when a clause already failed"""
     import mystic.symbolic as ms
-    fam = spec['family']
+    fam, mode = spec['family'], spec.get('mode', spec['family'])
     key = 'C14/bounded/%s/' % fam
     var, kw = _api_args(spec)
     text = text_of(spec)
+    loc = _locals(spec) if loc is None else loc
     with contextlib.redirect_stdout(io.StringIO()):
         try:
-            ineqf, eqf = ms.generate_conditions(text, variables=var, locals=_locals(spec), **kw)
+            ineqf, eqf = ms.generate_conditions(text, variables=var, locals=loc, **kw)
         except Exception as e:
             res.violation(key + 'builds', '%r: %s: %s' % (text, type(e).__name__, e), jsonable(spec))
             return
@@ -184,31 +258,51 @@ def check_program(spec, res, stats, npts):
         return
     ii, ie = iter(ineqf), iter(eqf)
     conds = [next(ii) if k == 'ineq' else next(ie) for k in kinds]
-    order = [i for i, k in enumerate(kinds) if k == 'ineq'] + [i for i, k in enumerate(kinds) if k == 'eq']
-    rng = random.Random(spec['seed'] * 104729 + len(text))
-    pens = [(pt, k, build_penalty(ineqf, eqf, pt, k)) for pt in PTYPES for k in (KS if pt != 'default' else KS[:2])]
-    cons = None
-    if fam == 'cross':
+    pens = build_penalties(spec, ineqf, eqf, kinds, res, key)
+    cons, cross = None, False
+    if mode in ('cross', 'direct'):
         with contextlib.redirect_stdout(io.StringIO()):
             try:
-                simp = ms.simplify(text, variables=var)
-                cons = ms.generate_constraint(ms.generate_solvers(simp, variables=var, locals=_locals(spec), **kw))
+                simp = text if mode == 'direct' else ms.simplify(text, variables=var)
+                cons = ms.generate_constraint(ms.generate_solvers(simp, variables=var, locals=dict(loc), **kw))
             except Exception as e:
                 stats.setdefault('aborted', []).append('%r: %s: %s' % (text, type(e).__name__, str(e)[:60]))
                 return
         names = names_of(spec['scheme'], spec['nv'])
         heads = sorted(s.split()[0] for s in simp.split('\n') if s.strip())
         exact = all(ln['isolated'] for ln in spec['lines']) and heads == sorted(names[ln['L'][0][1]] for ln in spec['lines'])
+        cross = 'exact' if exact else 'rounding'
     stats['programs'] = stats.get('programs', 0) + 1
+    return {'text': text, 'conds': conds, 'pens': pens, 'cons': cons, 'cross': cross}
+
+
+def eval_program(spec, b, res, stats, npts, whole=None):
+    key = 'C14/bounded/%s/' % spec['family']
+    rng = random.Random(spec['seed'] * 104729 + len(b['text']))
     for kind, x in points(spec, npts, rng):
-        inp = dict(spec, x=jsonable(x))
-        if cons is not None:                              # cross clause: evaluate at the constrained point
+        inp = dict(whole or spec, x=jsonable(x))
+        if b['cons'] is not None:                         # cross clause: evaluate at the constrained point
             try:
-                x = [float(v) for v in cons(list(x))]
+                x = [float(v) for v in b['cons'](list(x))]
             except Exception as e:
-                res.violation(key + 'constraint-call', '%r at %r: %s: %s' % (text, x, type(e).__name__, e), inp)
+                res.violation(key + 'constraint-call', '%r at %r: %s: %s' % (b['text'], x, type(e).__name__, e), inp)
                 continue
-        check_point(spec, text, conds, order, pens, kind, x, res, stats, inp, cons is not None and ('exact' if exact else 'rounding'))
+        check_point(spec, b['text'], b['conds'], b['pens'], kind, x, res, stats, inp, b['cross'])
+
+
+def check_program(spec, res, stats, npts):
+    if spec['family'] != 'sequence':
+        b = compile_program(spec, res, stats)
+        return b and eval_program(spec, b, res, stats, npts)
+    shared, built = {}, []
+    for st in spec['steps']:                              # compile everything first ...
+        if spec.get('shared_dict'):                       # ... through one dict object the caller keeps updating
+            shared.clear()
+            shared.update(_locals(st))
+        built.append(compile_program(st, res, stats, shared if spec.get('shared_dict') else None))
+    for st, b in zip(spec['steps'], built):               # ... then use every compiled function
+        if b:
+            eval_program(st, b, res, stats, npts, dict(spec, step=st['step']))
 
 
 def check_point(spec, text, conds, order, pens, kind, x, res, stats, inp, cross):
